@@ -11,6 +11,9 @@
 (*                   any other constructor are left alone.                 *)
 (*  BuiltinInfo(e)   the documented definition of every built-in, children *)
 (*                   being expressions (C04 shape, C17 phantom erasure).   *)
+(*  "Local" (n = 1, 2) are two USER types with the same name, the same     *)
+(*  path and the same module (same-named items of two blocks of one        *)
+(*  function): type identity is the only thing that tells them apart.      *)
 (***************************************************************************)
 EXTENDS SITypes, TLC
 
@@ -68,6 +71,8 @@ BuiltinInfo(e, docsOn) ==
     [] c = "Compact" -> Ty(<<>>, <<>>, [tag |-> "compact", ty |-> x], <<>>)
     [] c \in {"Range", "RangeInclusive"} -> Ty(<<c>>, <<Prm("Idx", x)>>, Composite(<<Fld(Some("start"), x, Some("Idx")), Fld(Some("end"), x, Some("Idx"))>>), <<>>)
     [] c = "BitVec" -> Ty(<<>>, <<>>, [tag |-> "bitsequence", store |-> x, order |-> y], <<>>)
+    \* user types (hand-written TypeInfo) that share NAME AND PATH but are different types: e.n tells them apart
+    [] c = "Local" -> Ty(<<"user", "Local">>, <<>>, Composite(<<Fld(None, E0(IF e.n = 1 THEN "u8" ELSE "u16"), None)>>), <<>>)
     [] c \in {"Lsb0", "Msb0"} -> Ty(<<"bitvec", "order", c>>, <<>>, [tag |-> "composite", fields |-> <<>>], <<>>)
 
 \* the expressions an expression's definition mentions (so that a corpus can be closed under reference)
